@@ -145,20 +145,28 @@ class Harness:
       with open_real(os.path.join(self.root, b), 'wb') as f:
         f.write(data)
 
-  def call(self, crash_at=None, partial=None, fault='crash', net_fail=None):
+  def call(self, crash_at=None, partial=None, fault='crash', net_fail=None, crash_pred=None, get_fault=None):
     self.log = []
     h = self
     calls = []
 
     def fake_get(url, *a, **kw):
-      if net_fail == -1:
+      if net_fail == -1 or get_fault == 'conn':
         raise ConnectionError('injected connection failure')
+      if get_fault == 'kill':
+        ip.crashing = True
+        raise faults.SimCrash()
       h.log.append({'e': 'NetGet'})
       calls.append(url)
-      return FakeResponse(h.comp, net_fail, h.log)
+      r = FakeResponse(h.comp, net_fail, h.log)
+      if get_fault == 'http':
+        def bad_status():
+          raise h.dl.requests.HTTPError('503 injected')
+        r.raise_for_status = bad_status
+      return r
 
     ip = faults.Interposer(self.root, self.snapshot, self.log, crash_at=crash_at, partial=partial, fault=fault,
-                           use_tf=False, name_of=self.name_of)
+                           use_tf=False, name_of=self.name_of, crash_pred=crash_pred)
     real_get = self.dl.requests.get
     self.dl.requests.get = fake_get
     outcome = 'return'
@@ -319,6 +327,208 @@ def leg_t(ctx):
   return total
 
 
+U_DL = 1 << 17    # one abstract unit of the downloaded file: half a transfer block of the real code
+U_DC = 1 << 15    # one abstract unit of the decompressed file: half a shutil.copyfileobj buffer
+SPEC2REAL = {'final': 'final', 'partial': 'partial', 'decomp': 'decomp', 'dtmp': 'other:payload.bin.partial'}
+
+
+def gen_payload(rnd, total, dtotal):
+  """A download of exactly `total` units that decompresses to exactly `dtotal` units (trailing non-xz bytes are ignored by lzma)."""
+  plain = bytes(rnd.getrandbits(8) for _ in range(dtotal * U_DC))
+  comp = lzma.compress(plain)
+  if len(comp) > total * U_DL:
+    return None
+  return plain, comp + b'\xff' * (total * U_DL - len(comp))
+
+
+def realise(h, rnd, point):
+  """Makes one call of the real code fail at the NAMED fault point of the specification. Returns (outcome, n_get) or None."""
+  at, kind, size = point['at'], point['kind'], point['size']
+  if at == 'none':
+    return ('unobservable', 0)
+  blocks_done = size // 2
+  download = at.startswith('dl_')
+  total = (len(h.comp) // U_DL) if download else (len(h.plain) // U_DC)
+  state = {'writes': 0, 'phase': None}
+  kw = {}
+  mode = 'crash'
+
+  def phase_of(name):
+    return 'dl' if name in ('final', 'partial') else 'dc'
+
+  want_phase = 'dl' if download else 'dc'
+  how = None
+  if kind == 'Exception':
+    mode = 'ioerror'
+    if at == 'dl_get':
+      kw['get_fault'] = 'conn'
+      how = 'get'
+    elif at == 'dl_write' and size < total:
+      how = rnd.choice(['net', 'write'] + (['http'] if size == 0 else []))
+      if how == 'net':
+        kw['net_fail'] = blocks_done
+      elif how == 'http':
+        kw['get_fault'] = 'http'
+    else:
+      how = 'write' if size < total else 'close'
+  elif kind == 'Torn':
+    how = 'torn'
+  else:
+    if at == 'dl_get':
+      kw['get_fault'] = 'kill'
+      how = 'get'
+    elif at in ('dl_open', 'dc_open'):
+      how = 'open'
+      mode = rnd.choice(['crash', 'ioerror'])
+    elif at in ('dl_rename', 'dc_rename'):
+      how = 'rename'
+      mode = rnd.choice(['crash', 'ioerror'])
+    elif at in ('dl_write', 'dc_copy'):
+      how = 'write' if size < total else 'close'
+    else:
+      return None
+
+  def pred(k, f):
+    name = f.get('name', f.get('src'))
+    ph = phase_of(name)
+    if k == 'Open':
+      state['writes'] = 0
+      return how == 'open' and ph == want_phase
+    if k == 'Write':
+      hit = ph == want_phase and state['writes'] == blocks_done
+      state['writes'] += 1
+      if hit and how == 'torn':
+        return ('partial', point['torn'] / 2.0)
+      return hit and how == 'write'
+    if k == 'Close':
+      return how == 'close' and ph == want_phase
+    if k == 'Rename':
+      return how == 'rename' and ph == want_phase
+    return False
+
+  ev, _, _, outcome, n_get = h.call(fault=mode, crash_pred=pred, **kw)
+  return (outcome, n_get, how, mode, ev)
+
+
+def dir_matches(h, snap, want):
+  """Real directory snapshot vs. the directory the specification expects (sizes in units)."""
+  got = {n: f for n, f in snap}
+  exp = {}
+  for n, f in asdict(want).items():
+    unit = U_DL if n in ('final', 'partial') else U_DC
+    exp[SPEC2REAL[n]] = {'exists': True, 'size': f['size'] * unit, 'good': f['good']}
+  if set(got) != set(exp):
+    return f'files {sorted(got)} but the specification expects {sorted(exp)}'
+  for n in exp:
+    if got[n]['size'] != exp[n]['size'] or (got[n]['good'] != exp[n]['good'] and exp[n]['size'] > 0):
+      return f'{n}: real {got[n]} but the specification expects {exp[n]}'
+  return None
+
+
+def leg_r(ctx):
+  """Leg R: fault schedules generated by TLC from Cache (named fault points) are realised on the real code."""
+  if shutil.COPY_BUFSIZE != 2 * U_DC:
+    ctx.leg('R', skipped=f'shutil.COPY_BUFSIZE={shutil.COPY_BUFSIZE}')
+    return
+  cfgs = [(1, 1, False), (3, 3, False), (4, 0, True), (2, 3, True)]
+  if ctx.thorough:
+    cfgs += [(4, 4, False), (3, 1, True), (5, 3, False), (1, 0, True)]
+  total_n, unreal = 0, 0
+  how_count = collections.Counter()
+  for total, dtotal, stale in cfgs:
+    pl = gen_payload(ctx.rng, total, dtotal)
+    if pl is None:
+      continue
+    plain, comp = pl
+    consts = dict(Total=total, DTotal=dtotal, Block=2, MaxFaults=3 if ctx.thorough else 2, AtomicDownload=True, AtomicDecomp=True,
+                  StalePartial=stale)
+    r = ctx.tlc('CacheGen', name=f'CacheGen_{total}_{dtotal}_{int(stale)}', constants=consts, init='GInit', next_='GNext',
+                invariants=['EmitSchedule'], workers=1, coverage=False)
+    scheds = r.json
+    ctx.rng.shuffle(scheds)
+    if not ctx.thorough:
+      scheds = scheds[:300]
+    root = os.path.join(ctx.scratch, f'gen_{total}_{dtotal}')
+    os.makedirs(root, exist_ok=True)
+    h = Harness(root, plain)
+    h.comp = comp
+    for s in scheds:
+      init = {}
+      for n, f in asdict(s['sched'][0]['dir']).items():
+        if n != 'partial':
+          raise Machinery(f'CacheGen initial directory has {n}')
+        init[h.fname + '.partial'] = comp[:f['size'] * U_DL]
+      h.restore(init)
+      problem, n_get, skipped = None, 0, False
+      for ci, point in enumerate(s['sched'][1:]):
+        if point['kind'] == 'Recall':
+          _, _, _, outcome, g = h.call()
+          n_get += g
+          if outcome != 'return':
+            problem = ('completion', f'the call before the repeated call #{ci + 1} ended with {outcome}')
+            break
+        else:
+          res = realise(h, ctx.rng, point)
+          if res is None:
+            skipped = True
+            break
+          if res[0] == 'unobservable':
+            continue
+          outcome, g, how, mode = res[:4]
+          n_get += g
+          want_outcome = 'crash' if mode == 'crash' and how != 'net' else 'fail'
+          if how in ('get',) and point['kind'] == 'Kill':
+            want_outcome = 'crash'
+          if how in ('net', 'http', 'get') and point['kind'] == 'Exception':
+            want_outcome = 'fail'
+          if outcome == 'return':
+            skipped = True   # the named point was never reached by the real code
+            break
+          if outcome != want_outcome:
+            problem = ('fault-outcome', f'fault #{ci + 1} at spec point {brief(point)} ({how}/{mode}) ended with {outcome}, expected {want_outcome}')
+            break
+          how_count[f"{point['at']}:{point['kind']}:{how}"] += 1
+        bad = dir_matches(h, h.snapshot(), point['dir'])
+        if bad:
+          problem = ('directory-after-fault', f'after fault #{ci + 1} at spec point {brief(point)}: {bad}')
+          break
+        if n_get != point['net']:
+          problem = ('network-requests', f'after fault #{ci + 1} at spec point {brief(point)}: {n_get} requests so far, the specification expects {point["net"]}')
+          break
+      if skipped:
+        unreal += 1
+        continue
+      if problem is None:
+        ev, _, _, outcome, g = h.call()
+        n_get += g
+        rets = [e['which'] for e in ev if e['e'] == 'Return']
+        bad = dir_matches(h, h.snapshot(), s['dir'])
+        if outcome != 'return' or rets != ['final', 'decomp']:
+          problem = ('final-call', f'the final call ended with {outcome}, returned {rets}')
+        elif bad:
+          problem = ('final-directory', bad)
+        elif n_get != s['net']:
+          problem = ('network-requests', f'{n_get} requests over the whole history, the specification expects {s["net"]}')
+      total_n += 1
+      ctx.case(key=('R', total, dtotal, stale, repr([brief(p) for p in s['sched'][1:]])), nontrivial=len(s['sched']) >= 2)
+      if problem:
+        ctx.violation(f'replay:{problem[0]}', f'{problem[1]}; Total={total} DTotal={dtotal} units, stale={stale}, schedule={[brief(p) for p in s["sched"][1:]]}',
+                      replay={'cfg': [total, dtotal, stale], 'schedule': s})
+    shutil.rmtree(root, ignore_errors=True)
+  ctx.trace_ok(total_n)
+  ctx.leg('R', schedules_realised=total_n, schedules_not_realisable=unreal, fault_points=dict(how_count))
+  if total_n == 0 or (unreal > total_n and not ctx.violations):
+    raise Machinery(f'leg R: only {total_n} schedules realised, {unreal} not realisable')
+
+
+def asdict(x):
+  return x if isinstance(x, dict) else {}    # ToJson prints a function with an empty domain as []
+
+
+def brief(p):
+  return {k: p[k] for k in ('kind', 'pc', 'at', 'wname', 'size', 'torn') if k in p}
+
+
 def binding_control(ctx):
   h, traces, _, _ = explore(ctx, b'abc' * 1000, 0, 'ctl', None)
   import json  # pylint: disable=g-import-not-at-top
@@ -353,6 +563,11 @@ def run(ctx):
       'cifar100.load_split builds its converted SQLite file in place too; that step is outside C19 as worded and '
       'is not asserted',
   ]
-  leg_m(ctx)
-  leg_t(ctx)
-  binding_control(ctx)
+  only = os.environ.get('C19_LEGS', 'MTR')
+  if 'M' in only:
+    leg_m(ctx)
+  if 'T' in only:
+    leg_t(ctx)
+    binding_control(ctx)
+  if 'R' in only:
+    leg_r(ctx)
